@@ -136,8 +136,15 @@ class Ctx:
         return out
 
     # ---- SMT text
-    def preamble(self, used_consts=None):
+    def preamble(self, used_consts=None, nl="exact"):
         lines = ["(set-logic ALL)"]
+        if nl == "exact":
+            lines.append("(define-fun nlmul ((a Int) (b Int)) Int (* a b))")
+        else:
+            lines.append("(declare-fun nlmul (Int Int) Int)")
+            lines.append("(assert (forall ((a Int) (b Int)) (! (= (nlmul a b) (nlmul b a)) :pattern ((nlmul a b)))))")
+            lines.append("(assert (forall ((a Int) (b Int)) (! (=> (and (>= a 0) (>= b 0)) (>= (nlmul a b) 0)) :pattern ((nlmul a b)))))")
+            lines.append("(assert (forall ((a Int) (b Int)) (! (=> (or (= a 0) (= b 0)) (= (nlmul a b) 0)) :pattern ((nlmul a b)))))")
         for s in self.sorts:
             lines.append(f"(declare-sort {s} 0)")
         for name in self.dt_order:
@@ -158,7 +165,7 @@ class Ctx:
                 lines.append(f"(declare-const {name} {sort})")
         return lines
 
-    def vc_text(self, hyps, goal, defs="both", fuel=2, get_values=(), extra_axioms=True):
+    def vc_text(self, hyps, goal, defs="both", fuel=2, get_values=(), extra_axioms=True, nl="exact"):
         """SMT-LIB text whose unsatisfiability proves  /\\ hyps => goal."""
         body_terms = list(hyps) + [goal]
         ax_terms = [t for _, t in self.axioms] if extra_axioms else []
@@ -171,7 +178,7 @@ class Ctx:
         used = set()
         for t in body_terms + ax_terms + inst + quant + list(get_values):
             used.update(smt.free_consts(t))
-        lines = self.preamble(used)
+        lines = self.preamble(used, nl=nl)
         for name, t in self.axioms if extra_axioms else []:
             lines.append(f"; axiom {name}")
             lines.append(f"(assert {t})")
